@@ -540,7 +540,25 @@ func runC03(r *Run) {
 	for i, nov := 0, r.N(40, 600); i < nov; i++ {
 		overlap03(r, i)
 	}
-	r.Finish("(1) queries: IDs, names incl. mixed case / root / long, types and classes, flags, with/without OPT of sizes {0..65535}, malformed stream (QR, 0 or 2 questions, answer/authority records, 2 additionals) x scripted plugin outcome (answer with 0..30 records of up to 250 bytes, rcode 0..15 and extended with OPT, none, error, error after a response) x arrival via UDP, TCP, DoH GET, DoH POST; (2) random chains of 1..4 of {cache, redirect, hosts, black_hole, arbitrary, reject, ttl, ecs, prefer_ipv4, fallback, forward_edns0opt} in front of the scripted upstream, each chain queried 1..3 times; (3) two client queries with different IDs for one cached question (fresh entry / expired entry kept by lazy cache), the first held behind the cache until the second was answered; non-trivial = valid query")
+	// ---------- (4) the TCP/DoT server in front of the handler: pipelined queries on one connection whose replies are
+	// produced at the same time; every query gets exactly one intact reply with its own ID and question
+	for i, ns := 0, r.N(12, 150); i < ns; i++ {
+		gate := make(chan struct{})
+		sizes := map[uint16]int{}
+		entry := sequence.ExecutableFunc(func(ctx context.Context, qCtx *query_context.Context) error {
+			<-gate
+			m := new(dns.Msg)
+			m.SetReply(qCtx.Q())
+			for k, n := 0, sizes[qCtx.Q().Id]; k < n; k++ {
+				m.Answer = append(m.Answer, &dns.TXT{Hdr: dns.RR_Header{Name: qCtx.Q().Question[0].Name, Rrtype: dns.TypeTXT, Class: dns.ClassINET, Ttl: 1}, Txt: []string{strings.Repeat("y", 200)}})
+			}
+			qCtx.SetResponse(m)
+			return nil
+		})
+		h := server_handler.NewEntryHandler(server_handler.EntryHandlerOpts{Entry: entry})
+		serveTCP(r, 2+r.Rng.Intn(14), h, gate, sizes, "pipelined queries on one server connection (TCP / DoT server + handler) did not each get exactly one intact reply with their own ID and question: ")
+	}
+	r.Finish("(1) queries: IDs, names incl. mixed case / root / long, types and classes, flags, with/without OPT of sizes {0..65535}, malformed stream (QR, 0 or 2 questions, answer/authority records, 2 additionals) x scripted plugin outcome (answer with 0..30 records of up to 250 bytes, rcode 0..15 and extended with OPT, none, error, error after a response) x arrival via UDP, TCP, DoH GET, DoH POST; (2) random chains of 1..4 of {cache, redirect, hosts, black_hole, arbitrary, reject, ttl, ecs, prefer_ipv4, fallback, forward_edns0opt} in front of the scripted upstream, each chain queried 1..3 times; (3) two client queries with different IDs for one cached question (fresh entry / expired entry kept by lazy cache), the first held behind the cache until the second was answered; (4) 2..15 pipelined queries on one non-TCP connection through server.ServeTCP + EntryHandler, all answered at the same moment; non-trivial = valid query")
 }
 
 // overlap03: EntryHandler -> [cache, park] with an injected cache entry; query A (id a) is parked behind the cache with
@@ -895,6 +913,12 @@ func runChain03(r *Run, i int, c15 bool) {
 // replyOpt15: exactly one OPT iff the client sent one, DO mirrored, only allowed options.
 func replyOpt15(r *Run, q q03, payload []byte, got bool, desc map[string]any, allowed func(uint16) bool) {
 	if !got {
+		// an extended rcode cannot be expressed without an OPT record: for a client that sent none, sending nothing is
+		// the one outcome that does not hand it an OPT (the model: `packable`; C03 excludes this input)
+		if uo, _ := desc["upstream_outcome"].(string); q.clientOpt() == nil && (strings.HasPrefix(uo, "ans:16:") || strings.HasPrefix(uo, "ans:23:")) {
+			r.Count("ext-rcode-for-non-edns-client:dropped")
+			return
+		}
 		r.Fail("a well-formed query received no reply", desc)
 		return
 	}
@@ -939,7 +963,13 @@ func runC15(r *Run) {
 		if q.clientOpt() != nil && r.Rng.Intn(6) == 0 {
 			out.rcode = 16
 		}
-		if r.Rng.Intn(3) != 0 {
+		extNoOpt := q.clientOpt() == nil && r.Rng.Intn(10) == 0
+		if extNoOpt {
+			// an extended rcode (BADVERS, BADCOOKIE, ...) from upstream for a client that does not speak EDNS0: whatever
+			// the server does, it must not send that client an OPT record
+			out.kind, out.rcode = "ans", []int{16, 23}[r.Rng.Intn(2)]
+		}
+		if r.Rng.Intn(3) != 0 || extNoOpt {
 			out.hasUp = true
 			for _, c := range []uint16{dns.EDNS0SUBNET, dns.EDNS0COOKIE, dns.EDNS0PADDING, 65001} {
 				if r.Rng.Intn(2) == 0 {
@@ -992,10 +1022,100 @@ func runC15(r *Run) {
 	for i := 0; i < m; i++ {
 		runChain03(r, i, true)
 	}
+	// (3) forked sub-queries (what fallback, dual_selector and the lazy cache update do with Context.Copy)
+	for i, nf := 0, r.N(60, 1500); i < nf; i++ {
+		fork15(r, i)
+	}
 	keys := []string{}
 	for k := range r.meta.Dist {
 		keys = append(keys, k)
 	}
 	sort.Strings(keys)
-	r.Finish("client queries without / with one OPT (UDP size {0..65535}, DO, options from {client-subnet, cookie, padding, 65001}) x upstream replies without / with OPT (DO set, any of those options, extended rcode) through the handler alone and through random chains of 1..4 of {cache, ttl, ecs_handler(forward/preset), forward_edns0opt(codes)}, each chain queried 1..3 times (cache hits included); the scripted upstream records the query it is sent; non-trivial = client or upstream OPT present")
+	r.Finish("client queries without / with one OPT (UDP size {0..65535}, DO, options from {client-subnet, cookie, padding, 65001}) x upstream replies without / with OPT (DO set, any of those options, extended rcode) through the handler alone and through random chains of 1..4 of {cache, ttl, ecs_handler(forward/preset), forward_edns0opt(codes)}, each chain queried 1..3 times (cache hits included); the scripted upstream records the query it is sent; (3) forked sub-queries: a copy of the query context whose OPT is then edited, and fallback with an EDNS0-forwarding plugin in the primary branch only in front of a failing upstream (the secondary upstream records its query); non-trivial = client or upstream OPT present")
+}
+
+// fork15: (a) a copied context's query OPT is independent of the original's; (b) fallback{primary: [forwarding plugin,
+// failing upstream], secondary: upstream}: the secondary's query carries one fresh OPT and nothing of the client's.
+func fork15(r *Run, i int) {
+	q := r.genQ03()
+	q.qr, q.nq, q.nAns, q.nNs, q.opcode = false, 1, 0, 0, 0
+	q.extras = []any{opt03{size: uint16(512 + r.Rng.Intn(4000)), do: r.Rng.Intn(2) == 0, codes: []uint16{dns.EDNS0SUBNET, dns.EDNS0COOKIE}}}
+	// ---- (a)
+	qc := query_context.NewContext(q.msg())
+	cp := qc.Copy()
+	cp.QOpt().Option = append(cp.QOpt().Option, &dns.EDNS0_COOKIE{Code: dns.EDNS0COOKIE, Cookie: "0102030405060708"})
+	cp.QOpt().SetDo()
+	cp.Q().Question[0].Name = "changed.example."
+	if o := qc.QOpt(); o == nil || len(o.Option) != 0 || o.Do() || qc.Q().Question[0].Name == "changed.example." {
+		r.Fail("a forked sub-query shares its question or OPT record with the query it was copied from: what a plugin adds in one branch reaches the upstream of another", map[string]any{"query": q.op()})
+	}
+	r.Eval("fork-copy|"+q.op(), true)
+	r.Count("fork:context-copy")
+	// ---- (b)
+	plugins := map[string]any{}
+	m := coremain.NewTestMosdnsWithPlugins(plugins)
+	upA, upB := &upstream03{out: outcome03{kind: "err"}}, &upstream03{out: outcome03{kind: "ans", nAns: 1}}
+	plugins["upA"], plugins["upB"] = upA, upB
+	var fwd any
+	which := "ecs_handler(forward)"
+	if r.Rng.Intn(2) == 0 {
+		p, err := ecs_handler.NewHandler(ecs_handler.Args{Forward: true})
+		if err != nil {
+			r.Note("fork15: " + err.Error())
+			return
+		}
+		fwd = p
+	} else {
+		p, err := forward_edns0opt.QuickSetup(nil, "8 10")
+		if err != nil {
+			r.Note("fork15: " + err.Error())
+			return
+		}
+		fwd, which = p, "forward_edns0opt(8,10)"
+	}
+	plugins["fwd"] = fwd
+	prim, err := sequence.NewSequence(sequence.NewBQ(m, m.Logger()), []sequence.RuleArgs{{Exec: "$fwd"}, {Exec: "$upA"}})
+	if err != nil {
+		r.Note("fork15: " + err.Error())
+		return
+	}
+	plugins["prim"] = prim
+	standby := r.Rng.Intn(2) == 0
+	fb, err := fallback.Init(coremain.NewBP("fb", m), &fallback.Args{Primary: "prim", Secondary: "upB", Threshold: 300, AlwaysStandby: standby})
+	if err != nil {
+		r.Note("fork15: " + err.Error())
+		return
+	}
+	h := server_handler.NewEntryHandler(server_handler.EntryHandlerOpts{Entry: fb.(sequence.Executable)})
+	via := []string{"udp", "tcp"}[r.Rng.Intn(2)]
+	payload, got := deliver03(h, via, q.msg())
+	desc := map[string]any{"chain": "fallback{primary: [" + which + ", failing upstream], secondary: upstream B}", "always_standby": standby, "query": q.op(), "arrived_via": via}
+	replyOpt15(r, q, payload, got, desc, func(uint16) bool { return false })
+	upB.mu.Lock()
+	seen := upB.seen
+	upB.mu.Unlock()
+	if len(seen) == 0 && !standby {
+		r.Fail("the secondary upstream was not asked although the primary failed", desc)
+	}
+	for _, uq := range seen {
+		nopt := 0
+		for _, rr := range uq.Extra {
+			if o, ok := rr.(*dns.OPT); ok {
+				nopt++
+				if len(o.Option) != 0 || o.Do() {
+					var cs []uint16
+					for _, op := range o.Option {
+						cs = append(cs, op.Option())
+					}
+					desc["options_seen_by_secondary_upstream"] = cs
+					r.Fail("the query sent to an upstream whose branch has no forwarding plugin carries the client's EDNS0 options or DO bit", desc)
+				}
+			}
+		}
+		if nopt != 1 {
+			r.Fail("the query sent upstream does not carry exactly one OPT record", desc)
+		}
+	}
+	r.Eval("fork-fallback|"+q.op()+"|"+which, true)
+	r.Count("fork:fallback")
 }
